@@ -150,6 +150,9 @@ type vfSim struct {
 	// C10: call SetMtu(mtuVal) on end A after mtuAt calls
 	mtuAt       int
 	mtuVal      int
+	// C01: when > 0, SetMtu(mtuVal) is called on end A right before its write #mtuAtWrite instead (whatever is queued
+	// at that moment stays queued)
+	mtuAtWrite int
 	mtuDone     bool
 	mtuAccepted bool
 }
@@ -505,6 +508,11 @@ func (s *vfSim) app(en *vfEnd) {
 		if en.id == 1 && s.cfg.WriteGapMsB > 0 && s.now < uint32(en.nWritten)*s.cfg.WriteGapMsB {
 			break
 		}
+		if en.id == 0 && s.mtuVal != 0 && !s.mtuDone && s.mtuAtWrite > 0 && en.nWritten == s.mtuAtWrite {
+			s.mtuDone = true
+			s.mtuAccepted = k.SetMtu(s.mtuVal) == 0
+			s.tracef("SetMtu(%d) before write #%d accepted=%v (queued %d, in flight %d)", s.mtuVal, en.nWritten, s.mtuAccepted, k.snd_queue.Len(), k.snd_buf.Len())
+		}
 		en.nWritten++
 		if s.cfg.Mode == "session" {
 			if k.WaitSnd() >= int(k.snd_wnd) {
@@ -672,7 +680,7 @@ func (s *vfSim) run() {
 		s.now = ev.t
 		s.setClock()
 		s.steps++
-		if s.mtuVal != 0 && !s.mtuDone && s.calls >= s.mtuAt {
+		if s.mtuVal != 0 && !s.mtuDone && s.mtuAtWrite == 0 && s.calls >= s.mtuAt {
 			s.mtuDone = true
 			s.mtuAccepted = s.e[0].k.SetMtu(s.mtuVal) == 0
 			s.tracef("SetMtu(%d) accepted=%v", s.mtuVal, s.mtuAccepted)
